@@ -299,7 +299,9 @@ def run(pid, tier, seed):
                 continue
             fbs, fbm = fallbacks[0]
             lines, exp = [], []
-            for i, t0_ in enumerate(sts[:40]):
+            for i, t0_ in enumerate(sts):
+                if len(lines) >= 60:
+                    break
                 t = dict(t0_)
                 t["fd"] = 0 if fv == "nofrac" else min(t["fd"], maxfd)
                 t["n"] = int(("%09d" % t["n"])[:t["fd"]].ljust(9, "0")) if t["fd"] else 0
@@ -313,7 +315,7 @@ def run(pid, tier, seed):
                 inst = instant(t, fbm, zk)
                 if not (0 < inst[0] < 47481):
                     continue
-                ln = "%s x=%d" % (render(t), i) if i % 3 else render(t)
+                ln = "%s x=%d" % (render(t), i)      # (text follows every timestamp: a bare epoch value at a line's end is not a documented form)
                 lines.append(ln)
                 exp.append(fmt_instant(*inst) + ":" + ln)
                 if i % 2 == 0:
